@@ -4,9 +4,9 @@ package main
 
 import (
 	"flag"
+	"fmt"
 	"io"
 	"log"
-	"fmt"
 	"math/rand"
 	"os"
 	"sort"
